@@ -173,3 +173,28 @@ MANIFEST_TEXT['C17'] = (
  "Machine-checked over a standalone model of syscall / named_syscall / spawned_syscall, for every call tree (any sequence, any nesting through queued commands, all three entry points): without same-key re-entrancy the n-th body under a key sees Local = n (state persistent per key, independent between keys), every queued command is applied before the call returns, and a missing or currently running spawned system yields Err and runs nothing. Tied to /repo by running generated call trees on the real functions and comparing every body's (key, input, Local) and every return value.",
  "Trusted: Coq kernel; Bevy system initialisation / Local / apply_deferred as modelled. The documented same-key re-entrancy behaviour is modelled and compared, not a theorem.",
  "Coq proof (per-key counter invariant over call trees) + model/implementation correspondence", "DESIGN.md §5 C17")
+
+PROPS['C03'] = P(
+    ['assertion_guards_every_body', 'assertion_meaning', 'body_sees_exactly_its_own_claim', 'claims_are_exactly_what_was_parked',
+     'setup_claims_own_entries', 'setup_exposes_its_claim', 'despawn_reader', 'entity_reaction_readers', 'broadcast_reader',
+     'entity_event_reader', 'system_event_reader', 'other_kinds_report_nothing', 'manual_run_sees_nothing'],
+    ['recursion', 'mixed', 'stale', 'xw'], 'readers', determined=True,
+    assumes=['readers are sampled once, at the start of every harness body (all eight reader kinds, both event types); reads later in a body are not modelled',
+             'partial: "returns that event\'s own payload" is proved up to the data entity — the reader answers from the data entity named by the run\'s own command; that this entity still holds the payload stored when the event was sent (it is not dropped early) is C05, checked by the correspondence and the m_readers / m_payloads monitors',
+             'ghost bookkeeping (g_prep, g_claim, visible, the Stuck 5 assertion) exists only in the model; the tie is the compared reader samples of every run'])
+MANIFEST_TEXT['C03'] = (
+ "Machine-checked for every program: the model asserts at the start of every body that the tracker entries the readers can see are exactly the entries claimed by that run's own setup for the running system, and this assertion never fails (body_sees_exactly_its_own_claim, from the ticket invariant proved for every interpreter instruction with a ghost calling context); every claim is literally the entry list parked by one command under its unique ticket, or empty for a manual run (claims_are_exactly_what_was_parked); each reader answers only from the visible entry of its own kind and type, readers of other kinds report nothing, a manual run sees nothing (ReadersSpec). Tied to /repo by differential runs comparing all reader samples of every run (recursion profile: bursts of mixed events pending for one busy system), plus the m_readers monitor on implementation logs.",
+ "Trusted: Coq kernel; model faithfulness (differential); Bevy semantics as modelled. Partial: payload integrity of the data entity between send and run is C05 (not a theorem); readers are sampled at body start only.",
+ "Coq proof (ghost-instrumented model: parked/claimed entry lists, proved-unreachable assertion, reader characterisation) + model/implementation correspondence + monitor", "DESIGN.md §5 C03")
+
+PROPS['C04'] = P(
+    ['every_run_sees_only_its_own_event', 'claims_are_exactly_what_was_parked', 'flags_off_nothing_visible', 'nothing_visible_nothing_read',
+     'cleanup_closes_the_window', 'flags_are_off_at_every_command_boundary', 'flags_are_off_between_trees', 'system_event_taken_at_most_once'],
+    ['recursion', 'mixed', 'xw', 'stale'], 'readers', determined=True,
+    assumes=['probe positions: the generator makes every system sample all readers at the start of every run, so every nested / manual / re-run position of every tree is a probe; reads later in a body are not modelled',
+             'early-return (Err) systems: the model ignores sd_err; that an Err return changes nothing is established by the correspondence (a third of generated systems return Err), not by a theorem',
+             'a second SystemEvent::take in the same body is proved on the model function take_sysevents; the harness takes once per run'])
+MANIFEST_TEXT['C04'] = (
+ "Machine-checked for every program: every run (nested reaction, manual run, re-run, reactor of another event, any later run) starts with the readers exposing exactly what its own command parked and nothing else — the proved-unreachable assertion of C03 — so a run whose command carried no event reads nothing; cleanup switches off every flag its setup switched on (cleanup_ok), the flags are off at every command boundary on both paths of run_initialized_system (exec_ticket: only an exclusive system's own queued cleanup may still be pending at the head of its command list) and between trees; take_sysevents yields at most one payload and nothing afterwards. Tied to /repo by differential runs comparing all reader samples of every run, with plain, exclusive and Err-returning systems, plus the m_readers monitor.",
+ "Trusted: Coq kernel; model faithfulness (differential); Bevy semantics as modelled. Readers are sampled at body start only; Err-return equivalence rests on the correspondence.",
+ "Coq proof (ticket/flag invariant over the interpreter, proved-unreachable assertion, reader characterisation) + model/implementation correspondence + monitor", "DESIGN.md §5 C04")
